@@ -102,3 +102,83 @@ def refdfas(specs, name):
         c = capmod.parse_cap(p)
         res[c.id] = c
     return res
+
+
+# ------------------------------------------------------------------------------------------------
+# canonical token lists (hook canonical_tokens) -> python trees / Coq terms / encodings
+# ------------------------------------------------------------------------------------------------
+def parse_canon(text):
+    toks = text.split()
+    pos = [0]
+
+    def seq(until_close):
+        out = []
+        while pos[0] < len(toks):
+            t = toks[pos[0]]
+            if t == ')':
+                if until_close:
+                    pos[0] += 1
+                    return out
+                raise ValueError('unbalanced')
+            pos[0] += 1
+            if t.startswith('i:'):
+                out.append(('i', t[2:].encode()))
+            elif t.startswith('p:'):
+                _, c, sp = t.split(':')
+                out.append(('p', int(c), sp == 'J'))
+            elif t.startswith('l:'):
+                out.append(('l', bytes.fromhex(t[2:])))
+            elif t.startswith('g') and t.endswith('('):
+                out.append(('g', int(t[1:-1]), seq(True)))
+            else:
+                raise ValueError('bad canonical token ' + t)
+        return out
+    return seq(False)
+
+
+def coq_tok(t):
+    nl = lambda bs: '[' + ';'.join(str(b) for b in bs) + ']'
+    if t[0] == 'i': return '(TIdent %s)' % nl(t[1])
+    if t[0] == 'p': return '(TPunct %d %s)' % (t[1], 'true' if t[2] else 'false')
+    if t[0] == 'l': return '(TLit %s)' % nl(t[1])
+    return '(TGroup %d [%s])' % (t[1], ';'.join(coq_tok(x) for x in t[2]))
+
+
+def enc_tok(t):
+    if t[0] == 'i': return [1, len(t[1])] + list(t[1])
+    if t[0] == 'p': return [2, t[1], 1 if t[2] else 0]
+    if t[0] == 'l': return [3, len(t[1])] + list(t[1])
+    out = [4, t[1], len(t[2])]
+    for x in t[2]:
+        out += enc_tok(x)
+    return out
+
+
+def enc_toks(ts):
+    out = [len(ts)]
+    for t in ts:
+        out += enc_tok(t)
+    return out
+
+
+def enc_item_text(s):
+    """Encode one item printed by the hook (U[ .. ], X[ .. ], N[name]A[ .. ], ...) like Front.AttrParser.enc_nested."""
+    import re
+    eb = lambda b: [len(b)] + list(b)
+    m = re.match(r'U\[ (.*) \]$|U\[  \]$', s)
+    if s.startswith('U['):
+        return [10] + enc_toks(parse_canon(s[2:-1]))
+    if s.startswith('X['):
+        return [11] + enc_toks(parse_canon(s[2:-1]))
+    m = re.match(r'N\[([^\]]*)\]([ALGK])\[(.*)\]$', s)
+    name = m.group(1).encode()
+    k = m.group(2); rest = m.group(3)
+    if k == 'A':
+        return [12] + eb(name) + enc_toks(parse_canon(rest))
+    if k == 'L':
+        t = parse_canon(rest)
+        return [13] + eb(name) + eb(t[0][1])
+    if k == 'G':
+        return [14] + eb(name) + enc_toks(parse_canon(rest))
+    m2 = re.match(r'([^\]]*)\]\[(.*)$', rest)
+    return [15] + eb(name) + eb(m2.group(1).encode()) + enc_toks(parse_canon(m2.group(2)))
